@@ -19,7 +19,7 @@ func vVariant() (k, maxPayload, mode, B int) {
 		}
 		return k, 2, 0, 16
 	case 1:
-		return k - 1, 2, 1 + vChoose("mode", 1+vTier()), 16
+		return k - 1, 2, []int{1, 3, 2}[vChoose("mode", 2+vTier())], 16
 	default:
 		return k - 1, 2, 0, 1 + vChoose("B", 2)
 	}
